@@ -215,4 +215,22 @@ theorem tile_listTake {α} (l : List α) (f : Nat × Nat → List α)
   rw [this, ← pieceBounds_tile bs 0 n hc, listTake_flatten, List.map_map]
   rfl
 
+theorem mapM_ok_length {α β} (f : α → Except Err β) : ∀ (l : List α) (r : List β), l.mapM f = .ok r → r.length = l.length
+  | [], r, h => by cases h; rfl
+  | x :: xs, r, h => by
+    rw [List.mapM_cons] at h
+    cases hx : f x with
+    | error e => rw [hx] at h; cases h
+    | ok y =>
+      cases hxs : xs.mapM f with
+      | error e => rw [hx, hxs] at h; cases h
+      | ok ys =>
+        rw [hx, hxs] at h
+        cases h
+        simp [mapM_ok_length f xs ys hxs]
+
+theorem cutSlices_length : ∀ (ks : List Int) (st : Option Int), (cutSlicesFrom st ks).length = ks.length + 1
+  | [], _ => rfl
+  | k :: ks, _ => by simp [cutSlicesFrom, cutSlices_length ks]
+
 end Psi.PData
